@@ -28,6 +28,9 @@ rule("C10.i", "a function that was given a grid hands it on to every callee that
 rule("C01.k", "the nodal restrictions are rebuilt from the mapping of the problem at hand in every set-up of a portfolio (C10.h seen from "
               "C01: a cached set of rows describes another problem's structure)", floor=1)
 rule("C10.e", "price data received by a set-up is never modified in place (directly or through an alias / element)", floor=6)
+rule("C01.n", "the list of nodes that get no balance row (skip_nodes) is what the caller said, in every call: the set-ups of a portfolio only "
+              "read it (a default list that grows keeps skipping a node in every later set-up - its balance row is missing while its "
+              "assets are dispatched)", floor=2)
 rule("C10.f", "a mutable default argument (list / dict / object created in the signature) is never mutated", floor=10)
 rule("C03.f", "optimize() does not modify the problem it is called on (mapping, c, l, u, b are only read or copied): a relaxed "
               "solve must not clear the boolean flags of the problem itself", floor=1, props=["C03", "C05", "C06", "C20"])
@@ -406,7 +409,7 @@ def _mutable_default(d) -> bool:
     return False
 
 
-@analysis("effects", ["C10.a", "C10.e", "C10.f", "C15.c", "C03.f", "C06.g", "C10.h", "C01.k", "C10.i"])
+@analysis("effects", ["C10.a", "C10.e", "C10.f", "C15.c", "C03.f", "C06.g", "C10.h", "C01.k", "C10.i", "C01.n"])
 def run(ctx):
     p = ctx.p
     an = ctx.memo("effects", lambda: EffectAnalysis(ctx))
@@ -432,6 +435,14 @@ def run(ctx):
                 ctx.ob("C10.f", fn, "default %s=%s" % (q.name, au.short(q.default, 50)), not hit,
                        "the default object is created once and shared by every call; it is mutated at %s" % (
                            "; ".join(p.where(m.node) for m in hit[:3])), node=(hit[0].node if hit else fn.node))
+        # ------------------------------------------------------------ C01.n the skip list of the nodal balance
+        if fn.cls is not None and fn.cls.name == "Portfolio" and fn.param("skip_nodes") is not None:
+            hit = [m for m in muts if m.root == "skip_nodes"]
+            ctx.ob("C01.n", fn, "skip_nodes is only read", not hit,
+                   "skip_nodes is modified at %s: the caller's list - or the default list of the signature, which is shared by all calls - keeps the "
+                   "nodes added here. A node that had no dispatch rows in one set-up (its assets start later: first interval of a split, first of "
+                   "two studies) gets no balance row in any later set-up: load at the node is reported, nothing is delivered (net flow 20 at node B)"
+                   % "; ".join(p.where(m.node) for m in hit[:3]), node=(hit[0].node if hit else fn.node))
         if fn.name == "__init__":
             continue  # constructors normalise their arguments once (idempotent); not a set-up / optimise / serialise entry
         if not _is_public(fn):
@@ -601,7 +612,7 @@ def run(ctx):
                 # ... or the receiver was given the grid explicitly before: <recv>.set_timegrid(timegrid)
                 recv = au.U(c.func.value)
                 passed = any(isinstance(x, ast.Call) and au.method_name(x) == "set_timegrid" and isinstance(x.func, ast.Attribute) and au.U(x.func.value) == recv
-                             and x.args and au.U(x.args[0]) == "timegrid" and x.lineno < c.lineno for x in au.walk_local(fn.node))
+                             and au.U(au.arg_or_kw(x, 0, "timegrid")) == "timegrid" and x.lineno < c.lineno for x in au.walk_local(fn.node))
             ctx.ob("C10.i", fn, au.short(c, 80), passed,
                    "%s was given a grid but calls %s without it: the callee then works on the grid its object was last set up with - another "
                    "study, a rolling window, an interval of a split optimisation. With a grid of equal length the result is silently wrong (cost "
